@@ -1,23 +1,12 @@
-int lfunc_0(void){ return 103; }
+int lfunc_0(void){ return 94; }
 void *addr_lfunc_0(void){ return (void*)lfunc_0; }
 extern int lfunc_0(void); void *l1_addr_lfunc_0(void){ return (void*)lfunc_0; }
-int ldata_1[4] = { 86 };
+int ldata_1[2] = { 13 };
 const void *addr_ldata_1(void){ return ldata_1; } int read_ldata_1(void){ return ldata_1[0]; }
 extern int ldata_1[]; const void *l1_addr_ldata_1(void){ return ldata_1; } int l1_read_ldata_1(void){ return ldata_1[0]; }
-#ifdef EIFUNC_FROM_LIB
-extern int eifunc_2(void); void *l1_addr_eifunc_2(void){ return (void*)eifunc_2; } int l1_call_eifunc_2(void){ return eifunc_2(); }
-#endif
-int ldata_3[4] = { 117 };
-const void *addr_ldata_3(void){ return ldata_3; } int read_ldata_3(void){ return ldata_3[0]; }
-extern int ldata_3[]; const void *l1_addr_ldata_3(void){ return ldata_3; } int l1_read_ldata_3(void){ return ldata_3[0]; }
-int lfunc_4(void){ return 34; }
-void *addr_lfunc_4(void){ return (void*)lfunc_4; }
-extern int lfunc_4(void); void *l1_addr_lfunc_4(void){ return (void*)lfunc_4; }
-int lfunc_5(void){ return 114; }
-void *addr_lfunc_5(void){ return (void*)lfunc_5; }
-extern int lfunc_5(void); void *l1_addr_lfunc_5(void){ return (void*)lfunc_5; }
-static int impl_lifunc_6(void){ return 68; } static void *res_lifunc_6(void){ return (void*)impl_lifunc_6; } int lifunc_6(void) __attribute__((ifunc("res_lifunc_6"))); void *addr_lifunc_6(void){ return (void*)lifunc_6; }
-int lalias_ts_7 = 50; extern __typeof(lalias_ts_7) t_lalias_ts_7 __attribute__((alias("lalias_ts_7")));
-void *addr_lalias_ts_7(void){ return (void*)&lalias_ts_7; } int read_lalias_ts_7(void){ return lalias_ts_7; } void write_lalias_ts_7(int v){ lalias_ts_7 = v; } void *waddr_lalias_ts_7(void){ return (void*)&lalias_ts_7; }
-int lalias_sw_8 = 109; extern __typeof(lalias_sw_8) w_lalias_sw_8 __attribute__((weak, alias("lalias_sw_8")));
-void *addr_lalias_sw_8(void){ return (void*)&w_lalias_sw_8; } int read_lalias_sw_8(void){ return w_lalias_sw_8; } void write_lalias_sw_8(int v){ w_lalias_sw_8 = v; } void *waddr_lalias_sw_8(void){ return (void*)&w_lalias_sw_8; }
+extern int l2func_2(void); void *l1_addr_l2func_2(void){ return (void*)l2func_2; }
+static int impl_lifunc_3(void){ return 31; } static void *res_lifunc_3(void){ return (void*)impl_lifunc_3; } int lifunc_3(void) __attribute__((ifunc("res_lifunc_3"))); void *addr_lifunc_3(void){ return (void*)lifunc_3; }
+int lalias_ts_4[16]; extern __typeof(lalias_ts_4) t_lalias_ts_4 __attribute__((alias("lalias_ts_4")));
+void *addr_lalias_ts_4(void){ return (void*)lalias_ts_4; } int read_lalias_ts_4(void){ return lalias_ts_4[0]; } void write_lalias_ts_4(int v){ lalias_ts_4[0] = v; } void *waddr_lalias_ts_4(void){ return (void*)lalias_ts_4; }
+int lalias_sw_5 = 142; extern __typeof(lalias_sw_5) w_lalias_sw_5 __attribute__((weak, alias("lalias_sw_5")));
+void *addr_lalias_sw_5(void){ return (void*)&w_lalias_sw_5; } int read_lalias_sw_5(void){ return w_lalias_sw_5; } void write_lalias_sw_5(int v){ w_lalias_sw_5 = v; } void *waddr_lalias_sw_5(void){ return (void*)&w_lalias_sw_5; }
